@@ -43,6 +43,18 @@ Pool == <<
   Ok_("parse_tls_extension", NoArgs, <<10, 10, 0, 1, 0>>),
   Ok_("parse_tls_extension", NoArgs, <<0, 10, 0, 4, 0, 2, 0, 23>>),
   Ok_("parse_tls_extension_sni", NoArgs, <<0, 0, 0, 6, 0, 4, 0, 0, 1, 97>>),
+  (* every TLS 1.3 extension through the ClientHello / ServerHello dispatchers: what follows an extension is not its business *)
+  Ok_("parse_tls_client_hello_extension", NoArgs, <<0, 41, 0, 2, 1, 2>>), Ok_("parse_tls_server_hello_extension", NoArgs, <<0, 41, 0, 2, 0, 0>>),
+  Ok_("parse_tls_client_hello_extension", NoArgs, <<0, 51, 0, 4, 0, 2, 0, 29>>), Ok_("parse_tls_server_hello_extension", NoArgs, <<0, 51, 0, 2, 0, 23>>),
+  Ok_("parse_tls_client_hello_extension", NoArgs, <<0, 43, 0, 3, 2, 3, 4>>), Ok_("parse_tls_server_hello_extension", NoArgs, <<0, 43, 0, 2, 3, 4>>),
+  Ok_("parse_tls_client_hello_extension", NoArgs, <<0, 42, 0, 0>>), Ok_("parse_tls_client_hello_extension", NoArgs, <<0, 44, 0, 1, 9>>),
+  Ok_("parse_tls_client_hello_extension", NoArgs, <<0, 45, 0, 2, 1, 1>>), Ok_("parse_tls_client_hello_extension", NoArgs, <<0, 49, 0, 0>>),
+  Ok_("parse_tls_client_hello_extension", NoArgs, <<0, 35, 0, 2, 7, 7>>), Ok_("parse_tls_server_hello_extension", NoArgs, <<0, 35, 0, 0>>),
+  Ok_("parse_tls_client_hello_extension", NoArgs, <<255, 1, 0, 1, 0>>), Ok_("parse_tls_server_hello_extension", NoArgs, <<0, 16, 0, 5, 0, 3, 2, 104, 50>>),
+  Ok_("parse_tls_extension_psk_key_exchange_modes", NoArgs, <<0, 45, 0, 2, 1, 1>>), Ok_("parse_tls_extension_max_fragment_length", NoArgs, <<0, 1, 0, 1, 4>>),
+  Ok_("parse_tls_extension_ec_point_formats", NoArgs, <<0, 11, 0, 2, 1, 0>>), Ok_("parse_tls_extension_key_share", NoArgs, <<0, 51, 0, 2, 0, 29>>),
+  (* DTLS messages whose fragment_length exceeds their total length (unfragmented by the crate's rule) *)
+  Ok_("parse_dtls_message_handshake", NoArgs, EncDtlsHs(14, 0, 3, 0, 2, <<5, 6>>)), Ok_("parse_dtls_message_handshake", NoArgs, EncDtlsHs(16, 1, 1, 0, 3, <<7, 8, 9>>)),
   Ok_("parse_tls_extension_unknown", NoArgs, <<1, 2, 0, 1, 5>>),
   Ok_("parse_ct_signed_certificate_timestamp", NoArgs, EncSct(Sc)),
   Ok_("parse_ct_signed_certificate_timestamp_list", NoArgs, EncSctList(<<Sc, Sc>>)),
